@@ -54,7 +54,25 @@ Proof.
   vm_compute. repeat split; auto. discriminate.
 Qed.
 
+(* Pool errors are steps of the schedules above ([ALookupErr], [ASetErr], [ASetPreparedErr]: the call fails, Broadcast
+   returns the error and sends nothing), so C08_single_fact holds through any pool failure.  A broadcaster that
+   "keeps going" after a failed set and sends the given ballot as it is equivocates: fact 100 pooled and sent, the
+   pool fails (closed while the node stops), a ballot with fact 200 for the same key reaches Broadcast. *)
+Theorem C08_keep_going_after_pool_error_refuted :
+  exists l b1 b2, In b1 (log (run_keep_going init l)) /\ In b2 (log (run_keep_going init l)) /\
+    blocal b1 = true /\ blocal b2 = true /\ bkey b1 = bkey b2 /\ bfact b1 <> bfact b2.
+Proof.
+  exists [ASet 1 (mkB 7 100 true); ABcast 1; ASetErr 2 (mkB 7 200 true); ABcast 2], (mkB 7 100 true), (mkB 7 200 true).
+  vm_compute. repeat split; auto. discriminate.
+Qed.
+
 (* ---- non-vacuity *)
+
+(* the same schedule on the code as it is: nothing is sent after the failed set *)
+Example C08_ex_pool_error_sends_nothing :
+  log (run init [ASet 1 (mkB 7 100 true); ABcast 1; ASetErr 2 (mkB 7 200 true); ABcast 2]) = [mkB 7 100 true].
+Proof. vm_compute. reflexivity. Qed.
+
 
 (* the same schedule on the fixed code: the second thread broadcasts the first ballot *)
 Example C08_ex_second_sends_first :
